@@ -409,6 +409,10 @@ func registerCrypto(P *Program) {
 		}
 		return h.Sum(nil)
 	}
+	// transaction hashing (RLP + keccak) is outside every claim: a fixed value, documented as uninterpreted
+	P.reg("(*github.com/ethereum/go-ethereum/core/types.Transaction).Hash", func(it *Interp, a []Value) Value {
+		return it.mkByteArray(make([]byte, 32))
+	})
 	P.reg("crypto/sha256.Sum256", func(it *Interp, a []Value) Value {
 		h := sha256.Sum256(it.concBytes(a[0]))
 		return it.mkByteArray(h[:])
